@@ -602,6 +602,29 @@ def apiRemoveRelay (n : Node) (cid : Nat) : Node × List (Out B) :=
     | none => (rmRelays n cid cid, [Out.destroy r.hop.addr n.self r.next 1])
   | none => (n, [])
 
+/-- `do_remove`'s sweep removes the two directions of a relay route independently (`remove_relay(id, "no activity")`,
+    or `destroy=True` over the traffic limit): one direction goes, the other stays behind as a *half-closed* route -/
+def apiRemoveRelayHalf (n : Node) (cid : Nat) (destroy : Bool) : Node × List (Out B) :=
+  match get n.relays cid with
+  | some r =>
+    (if n.defer then { n with doomed := n.doomed ++ [(1, cid)] } else { n with relays := del n.relays cid },
+     if destroy then [Out.destroy r.hop.addr n.self r.next 1] else [])
+  | none => (n, [])
+
+/-- `Circuit.state == CIRCUIT_STATE_READY`: not closing and all `goal_hops` hops verified -/
+def Circ.ready (c : Circ) : Bool := !c.closing && decide (c.goal ≤ c.hops.length)
+
+/-- `TunnelEndpoint.send`'s choice among `find_circuits(hops=h, state=None)` (dict order): the first READY one -/
+def pickReady (cs : List (Nat × Circ)) (h : Nat) : Option Nat :=
+  (cs.find? (fun p => p.2.goal == h && p.2.ready)).map (·.1)
+
+/-- `TunnelEndpoint.send` for an anonymized overlay: over the chosen READY circuit, else nothing leaves (the packet is
+    queued; a new circuit is only started when no circuit of that length exists at all - not generated) -/
+def apiEndpointSend (n : Node) (h dest tag : Nat) : Node × List (Out B) :=
+  match pickReady n.circuits h with
+  | some cid => apiSendData A n cid dest tag
+  | none => (n, [])
+
 /-! ### request-cache time-outs.  Every cache entry has its own timer in the code (CreatedRequestCache 60 s from
     join_circuit, CreateRequestCache 10 s from on_extend, RetryRequestCache 10 s from the CREATE/EXTEND); the model
     makes no assumption about their relative order: each expiry is an event of its own. -/
